@@ -1,6 +1,7 @@
 package chainsim
 
 import (
+	sdksecp "github.com/cosmos/cosmos-sdk/crypto/keys/secp256k1"
 	banktypes "github.com/cosmos/cosmos-sdk/x/bank/types"
 	authtypes "github.com/cosmos/cosmos-sdk/x/auth/types"
 	"fmt"
@@ -298,10 +299,17 @@ type StakeActor struct {
 	Voters    []*world.Account
 	Rate      int
 	inited    bool
+	inited2   bool
 	Denoms    []string // denoms tried for restaking (allowed and not)
 	ModuleP   int      // permille per step of a module-level lock / vault operation
 	VaultKeys []string
 	Whale     bool // the first voter restakes an amount at the 2^63 / 2^64 boundaries (needs matching genesis balances)
+	// ExtraOwner, when set, creates one more validator at the start of the run. The profile has filled the validator set
+	// (max_validators = number of genesis validators) and delegations to it stay small, so it remains UNBONDED for the whole
+	// run: power delegated to a validator outside the active set counts, and locks, like any other.
+	ExtraOwner *world.Account
+	extra      *world.Validator
+	extraTotal int64
 }
 
 func (a *StakeActor) OnBlock(e *Env, blk *world.BlockRecord) {}
@@ -316,7 +324,27 @@ func (a *StakeActor) Act(e *Env) {
 	sh := getStake(e)
 	if !a.inited {
 		a.inited = true
+		if a.ExtraOwner != nil {
+			pk := sdksecp.GenPrivKeyFromSecret([]byte("extra-validator-" + a.ExtraOwner.Addr.String())).PubKey()
+			rates := stakingtypes.NewCommissionRates(math.LegacyNewDecWithPrec(1, 1), math.LegacyNewDecWithPrec(2, 1), math.LegacyNewDecWithPrec(1, 2))
+			msg, err := stakingtypes.NewMsgCreateValidator(sdk.ValAddress(a.ExtraOwner.Addr).String(), pk, sdk.NewInt64Coin("uband", 1000), stakingtypes.NewDescription("extra", "", "", "", ""), rates, math.NewInt(1))
+			if err != nil {
+				panic(err)
+			}
+			e.Submit(a.ExtraOwner, "create_validator", nil, msg)
+			e.St.Fault("validator_created_outside_the_active_set")
+			a.extra = &world.Validator{Account: a.ExtraOwner, Tokens: math.NewInt(1000)}
+			return // delegations start with the next step, when the validator exists
+		}
+	}
+	if !a.inited2 {
+		a.inited2 = true
 		for _, u := range a.Voters {
+			if a.extra != nil && e.Ch.Bool("stake.init.extra", 500) {
+				amt := int64(500 + e.Ch.Intn("stake.init.extra.amt", 5000))
+				a.extraTotal += amt
+				a.submitDelegate(e, u, a.extra, amt)
+			}
 			n := 1 + e.Ch.Intn("stake.init.nvals", min(3, len(w.Vals)))
 			for i := 0; i < n; i++ {
 				a.submitDelegate(e, u, w.Vals[(i+e.Ch.Intn("stake.init.val", len(w.Vals)))%len(w.Vals)], int64(500+e.Ch.Intn("stake.init.amt", 5000)))
@@ -399,7 +427,17 @@ func (a *StakeActor) Act(e *Env) {
 		e.Submit(u, "send_to_module_account", nil, msg)
 		e.St.Fault("bank_send_to_module_account")
 	case 0:
-		a.submitDelegate(e, u, w.Vals[e.Ch.Intn("stake.val", len(w.Vals))], int64(1+e.Ch.Intn("stake.amt", 3000)))
+		targets := w.Vals
+		if a.extra != nil && a.extraTotal < 400_000 {
+			targets = append(append([]*world.Validator{}, w.Vals...), a.extra)
+		}
+		t := targets[e.Ch.Intn("stake.val", len(targets))]
+		amt := int64(1 + e.Ch.Intn("stake.amt", 3000))
+		if t == a.extra {
+			a.extraTotal += amt
+			e.St.Fault("delegation_to_validator_outside_the_active_set")
+		}
+		a.submitDelegate(e, u, t, amt)
 	case 1: // undelegate
 		vals := sortedKeysInt2(sh.Deleg[addr])
 		if len(vals) == 0 {
@@ -407,6 +445,11 @@ func (a *StakeActor) Act(e *Env) {
 		}
 		v := vals[e.Ch.Intn("stake.undel.val", len(vals))]
 		amt, aim := aimAmt(sh.Deleg[addr][v])
+		if a.extra != nil && v == a.extra.Val.String() && e.Ch.Bool("stake.undel.extra.all", 600) {
+			// the whole delegation to the validator outside the active set (the delegation record is removed, a different path in staking)
+			amt, aim = sh.Deleg[addr][v], "all"
+			e.St.Fault("full_undelegation_from_validator_outside_the_active_set")
+		}
 		if !amt.IsPositive() {
 			return
 		}
@@ -423,6 +466,10 @@ func (a *StakeActor) Act(e *Env) {
 			return
 		}
 		amt, aim := aimAmt(sh.Deleg[addr][v])
+		if a.extra != nil && v == a.extra.Val.String() && e.Ch.Bool("stake.redel.extra.all", 600) {
+			amt, aim = sh.Deleg[addr][v], "all"
+			e.St.Fault("full_redelegation_from_validator_outside_the_active_set")
+		}
 		if !amt.IsPositive() {
 			return
 		}
